@@ -211,6 +211,73 @@ pub fn run(args: &[String]) -> i32 {
     0
 }
 
+/// Pattern P2 (implementation -> specification): apply caller-chosen operation sequences to the real
+/// ModuleGraph and *record* what it did -- one event per operation with the outcome and every public
+/// query projected onto the universe -- for TLC to validate against ModuleGraphRef (TraceGraph.tla).
+/// Input: {"ops":[{"op","a","b"}..], "universe":[names]}.  Output: a "reset" event, then one event per op.
+pub fn run_record(args: &[String]) -> i32 {
+    let base = PathBuf::from(args.first().cloned().unwrap_or_else(|| "/nonexistent-verif-c21".into()));
+    let nm = Names { base };
+    let mut out = Out::new();
+    for (run, rec) in read_records().enumerate() {
+        let ops = rec["ops"].as_array().cloned().unwrap_or_default();
+        let universe: Vec<String> = rec["universe"].as_array().map(|a| a.iter().filter_map(|x| x.as_str().map(String::from)).collect()).unwrap_or_default();
+        out.emit(&json!({"op":"reset","a":"","b":"","res":"ok","run":run,"step":0}));
+        let mut g = ModuleGraph::new();
+        for (i, op) in ops.iter().enumerate() {
+            let r = guarded(AssertUnwindSafeGraph(&mut g, &nm, op, &universe));
+            match r {
+                Ok(ev) => {
+                    let mut ev = ev;
+                    ev["run"] = json!(run);
+                    ev["step"] = json!(i + 1);
+                    out.emit(&ev);
+                }
+                Err(p) => {
+                    out.emit(&json!({"op":"panic","a":op["a"],"b":op["b"],"res":panic_site(&p),"run":run,"step":i + 1,"during":op["op"]}));
+                    break;
+                }
+            }
+        }
+    }
+    out.flush();
+    0
+}
+
+#[allow(non_snake_case)]
+fn AssertUnwindSafeGraph<'a>(g: &'a mut ModuleGraph, nm: &'a Names, op: &'a Value, universe: &'a [String]) -> impl FnOnce() -> Value + 'a {
+    move || {
+        let res = apply(g, nm, op);
+        let mut sort_order_ok = true;
+        if op["op"] == "sort" && res == "ok" {
+            sort_order_ok = sorted_ok(g, nm).is_none();
+        }
+        let nodes: BTreeSet<String> = g.iter().map(|n| nm.name(&n.id)).collect();
+        let n_iter = g.iter().count();
+        let mut parents = serde_json::Map::new();
+        let mut anc = serde_json::Map::new();
+        let mut children = serde_json::Map::new();
+        let mut dep = serde_json::Map::new();
+        let mut deep = serde_json::Map::new();
+        let mut has = serde_json::Map::new();
+        for p in universe {
+            let pp = nm.path(p);
+            has.insert(p.clone(), json!(g.get_node(&pp).is_some()));
+            parents.insert(p.clone(), json!(g.parents(&pp).map(|s| nm.names(s.iter())).unwrap_or_default()));
+            anc.insert(p.clone(), json!(nm.names(g.ancestors(&pp).into_iter())));
+            let ch: BTreeSet<String> = g.children(&pp).map(|c| nm.name(&c)).collect();
+            children.insert(p.clone(), json!(ch));
+            let d1: BTreeSet<&String> = universe.iter().filter(|q| g.depends_on(&pp, &nm.path(q))).collect();
+            let d2: BTreeSet<&String> = universe.iter().filter(|q| g.deep_depends_on(&pp, &nm.path(q))).collect();
+            dep.insert(p.clone(), json!(d1));
+            deep.insert(p.clone(), json!(d2));
+        }
+        json!({"op":op["op"],"a":op["a"],"b":op["b"],"res":res,"sorted_ok":sort_order_ok,
+               "nodes":nodes,"n_iter":n_iter,"has":has,"parents":parents,"anc":anc,"children":children,
+               "dep":dep,"deep":deep})
+    }
+}
+
 /// TSort.tla: {"n": ["a","b"], "edges": [["a","b"],...], "exp": "ok"|"cycle"|"dangling", "order": [...]}
 pub fn run_tsort(_args: &[String]) -> i32 {
     let mut out = Out::new();
